@@ -311,3 +311,34 @@ def run(ctx, idx):
             why = "--> marks %s[ex.lineno - 1]; the same list was joined with LF into the parsed source" % lines_name if ok else (
                 "the marked index is `%s`, not ex.lineno - 1" % ix_src if not ok_ix else "the text handed to from_source is not the LF-join of the very list `%s` that is indexed" % lines_name)
         ctx.ob("C11.f", con, K.rel(cli), m.lineno, ok, why)
+    # ------------------------------------------------------------------ g
+    ctx.rule("C11.g", "The text reaches the lexer unchanged: Program.from_source hands its `source` parameter itself to Parser.parse, which hands its parameter itself to the PLY parser - no strip / splitlines / slicing in between, which would shift every reported line.")
+    hops = [(idx.func("mpilot.program", "Program.from_source"), "from_source -> Parser.parse"), (idx.func("mpilot.parser.parser", "Parser.parse"), "Parser.parse -> PLY parse")]
+    n_hops = 0
+    for fn, what in hops:
+        if fn is None:
+            raise AnalysisError("C11.g: %s vanished" % what)
+        params = [a.arg for a in fn.node.args.args]
+        calls = [n for n in own_nodes(fn.node) if isinstance(n, ast.Call) and isinstance(n.func, ast.Attribute) and n.func.attr == "parse" and (n.args or any(k.arg in ("input", "source") for k in n.keywords))]
+        for c in calls:
+            n_hops += 1
+            a0 = c.args[0] if c.args else next(k.value for k in c.keywords if k.arg in ("input", "source"))
+            e = K.expand(fn, a0)
+            con = "%s::text-passed-on-unchanged" % fn.key
+            rebound = [n for n in own_nodes(fn.node) if isinstance(n, ast.Name) and isinstance(n.ctx, ast.Store) and n.id in params]
+            # accepted: the parameter itself; str()/text_type() of it; parameter + constant suffix
+            inner = e
+            if isinstance(inner, ast.Call) and len(inner.args) == 1 and K.src(inner.func) in ("str", "six.text_type", "text_type"):
+                inner = inner.args[0]
+            if isinstance(inner, ast.BinOp) and isinstance(inner.op, ast.Add) and isinstance(inner.right, ast.Constant):
+                inner = inner.left
+            if isinstance(inner, ast.Name) and inner.id in params and not rebound:
+                ctx.hold("C11.g", con, K.rel(fn), c.lineno, "%s: `%s` is the parameter itself" % (what, K.src(a0)))
+                continue
+            text = K.src(e)
+            shifting = [m for m in (".strip(", ".lstrip(", ".splitlines(", ".split(", "dedent(", "[") if m in text] or rebound
+            if shifting:
+                ctx.violate("C11.g", con, K.rel(fn), c.lineno, "%s: the text is transformed on the way (`%s`): leading blank lines or line breaks removed there shift every line number reported afterwards away from the file" % (what, text[:80]))
+            else:
+                raise AnalysisError("C11.g: %s passes `%s`, which is outside the recognised forms" % (what, text[:80]))
+    ctx.floor("C11.g", "text hand-over calls", n_hops, 2)
